@@ -296,7 +296,7 @@ impl<'a, K: HKey> Ctx<'a, K> {
     }
 }
 
-fn history<K: HKey>(s: &mut Sess, rng: &mut Rng, w: &Weights, prop: &'static str, n_wal: u64, sync: bool) {
+fn history<K: HKey>(s: &mut Sess, rng: &mut Rng, w: &Weights, prop: &'static str, n_wal: u64, sync: bool, case: u64) {
     let nkeys = rng.range(2, 5);
     let mut keys = BTreeSet::new();
     while (keys.len() as u64) < nkeys { keys.insert(gen_key(K::KIND, rng, 12)); }
@@ -305,6 +305,24 @@ fn history<K: HKey>(s: &mut Sess, rng: &mut Rng, w: &Weights, prop: &'static str
     let r = c.op("open");
     if !r.starts_with("ok") { c.fail(format!("first open failed: {r}")); return; }
     c.observe(true);
+    // C18/C06 "all contents incl. those larger than I/O buffers": thresholds hide at powers of two, so
+    // the first 27 histories of a run start with a put of exactly 2^k-1, 2^k, 2^k+1 bytes for
+    // k = 13 … 21 (8 KiB … 2 MiB), alternately as one write call and in 64 KiB pieces — swept, not drawn
+    if matches!(prop, "C18" | "C06") && case < 27 {
+        let (k, delta) = (13 + case / 3, case % 3);
+        let len = (1u64 << k) + delta - 1;
+        let spec = if case % 2 == 0 { format!("~1:{len}") } else {
+            let mut v = Vec::new(); let mut left = len;
+            while left > 0 { let n = left.min(65_536); v.push(format!("~1:{n}")); left -= n; }
+            v.join(",")
+        };
+        let kb = c.key();
+        let bytes: Vec<u8> = chunks_of(&spec).concat();
+        c.expect(&format!("put {} {}", hx(&kb), spec), "ok");
+        c.map.insert(K::dec(&kb).unwrap(), bytes);
+        c.s.out.count("put.size-sweep-2^k");
+        c.observe(true);
+    }
     let len = c.rng.range(w.len_lo, w.len_hi);
     for i in 0..len {
         c.step(w);
@@ -339,6 +357,6 @@ pub fn histories(s: &mut Sess, rng: &mut Rng, n: u64, w: &Weights, prop: &'stati
         s.out.count(&format!("cfg.n={n_wal}"));
         s.out.count(&format!("cfg.kind={kind}"));
         s.out.count(if sync { "cfg.sync" } else { "cfg.async" });
-        with_kind!(kind, history(s, rng, w, prop, n_wal, sync));
+        with_kind!(kind, history(s, rng, w, prop, n_wal, sync, i));
     }
 }
